@@ -419,6 +419,14 @@ func (ex *Exec) prepare(decl *ast.FuncDecl) {
 				if o == nil {
 					continue
 				}
+				if _, isStruct := under(o.Type()).(*types.Struct); isStruct && len(s.Rhs) == len(s.Lhs) {
+					// a local struct VALUE built by a composite literal: slices made inside the literal are fresh
+					if _, ok := unparen(s.Rhs[i]).(*ast.CompositeLit); ok && s.Tok == token.DEFINE {
+						ex.freshStructVars[o] = true
+					} else {
+						delete(ex.freshStructVars, o)
+					}
+				}
 				if _, isPtr := under(o.Type()).(*types.Pointer); isPtr {
 					fresh := false
 					if len(s.Rhs) == len(s.Lhs) {
